@@ -1,7 +1,7 @@
 (* C11 property theorems ONLY (each closed by an already proved lemma) + assumptions. *)
 From Coq Require Import ZArith Reals Lra List Bool PrimFloat.
 From RV Require Import Common.Num Common.RealNum Common.FloatNum C11.Parser C11.ParserProofs C11.Orbit C11.OrbitProofs C11.Run
-  C11.OrbitInv C11.InvProofs C11.RoundTrip C11.Flow.
+  C11.OrbitInv C11.InvProofs C11.RoundTrip C11.Angles C11.PalProofs C11.Newton C11.Flow.
 From Coquelicot Require Import Coquelicot.
 Import ListNotations.
 
@@ -222,6 +222,152 @@ Theorem C11_T_roundtrip_mod_period : forall t Tp n (k : Z), 0 < n ->
   t - (n * (t - Tp) + IZR k * (2 * PI)) / Rabs n = Tp - IZR k * (2 * PI / n).
 Proof. exact T_roundtrip_mod_period. Qed.
 Print Assumptions C11_T_roundtrip_mod_period.
+
+(* ---- round 3 (angles) ------------------------------------------------------------------------------------------- *)
+(* acos2 (K cos th) K (S sin th) = th modulo 2 pi for every real th *)
+Theorem C11_acos2_mod_2pi : forall (L : libm R) (L2 : libm2 R), l_acos L2 = acos -> l_pi L = PI ->
+  forall th K S, 0 < K -> 0 < S -> exists k : Z, acos2 RNum L L2 (K * cos th) K (S * sin th) = th + IZR k * (2 * PI).
+Proof. exact acos2_mod. Qed.
+Print Assumptions C11_acos2_mod_2pi.
+
+(* elements -> particle -> elements on the generic branch (inc at least MIN_INC = 1e-8 away from 0 and pi) for e > 0,
+   bound AND unbound orbits: omega and f are returned modulo 2 pi, normalised to [0, 2 pi).
+   Convention of that branch (generic_angles): omega and omega+f are measured from the ascending node,
+   f := (omega+f) - omega, pomega := Omega +- omega, theta := Omega +- (omega+f) (minus for inc >= pi/2). *)
+Theorem C11_roundtrip_omega_f : forall (L : libm R) (L2 : libm2 R), l_acos L2 = acos -> l_pi L = PI -> fmod_spec (l_fmod L) ->
+  forall tiny G t0 prim m a e t p o inc om f,
+  trig_ok t -> 0 < G * (m + pm prim) -> shape_ok a e -> 0 < e -> -1 < e * cf t -> tiny <= pm prim ->
+  ci t = cos inc -> si t = sin inc -> MIN_INC RNum <= inc <= PI - MIN_INC RNum ->
+  co t = cos om -> so t = sin om -> cf t = cos f -> sf t = sin f ->
+  from_orbit_err RNum tiny G prim m a e t = inr p ->
+  orbit_from_particle_err RNum L L2 tiny G t0 p prim = inr o ->
+  (exists k : Z, o_omega o = om + IZR k * (2 * PI)) /\ (exists k : Z, o_f o = f + IZR k * (2 * PI)) /\
+  0 <= o_omega o < 2 * PI /\ 0 <= o_f o < 2 * PI.
+Proof. exact roundtrip_omega_f. Qed.
+Print Assumptions C11_roundtrip_omega_f.
+
+(* bound orbits, any inclination: n = sqrt(mu/a^3); the mean anomaly read back obeys Kepler's equation for the eccentric
+   anomaly E of f, modulo 2 pi; T = t0 - M/n up to whole periods *)
+Theorem C11_roundtrip_M_T : forall (L : libm R) (L2 : libm2 R), l_acos L2 = acos -> l_pi L = PI -> fmod_spec (l_fmod L) ->
+  forall tiny G t0 prim m a e t p o f E,
+  trig_ok t -> 0 < G * (m + pm prim) -> 0 < e < 1 -> 0 < a -> -1 < e * cf t -> tiny <= pm prim ->
+  cf t = cos f -> sf t = sin f ->
+  cos E = (e + cos f) / (1 + e * cos f) -> sin E = R_sqrt.sqrt (1 - e*e) * sin f / (1 + e * cos f) ->
+  from_orbit_err RNum tiny G prim m a e t = inr p ->
+  orbit_from_particle_err RNum L L2 tiny G t0 p prim = inr o ->
+  let nn := R_sqrt.sqrt (G * (m + pm prim) / (a*a*a)) in
+  o_n o = nn /\
+  (l_sin L = sin -> exists k : Z, o_M o = E - e * sin E + IZR k * (2 * PI)) /\
+  (l_sin L = sin -> exists k : Z, o_T o = t0 - (E - e * sin E) / nn + IZR k * (2 * PI / nn)).
+Proof. exact roundtrip_M_T. Qed.
+Print Assumptions C11_roundtrip_M_T.
+
+(* T -> M = n (t - T) -> f -> particle -> T: returned up to whole periods, the exactness of the Kepler solver being the
+   only hypothesis (this supersedes the conditional C11_T_roundtrip_mod_period) *)
+Theorem C11_roundtrip_T : forall (L : libm R) (L2 : libm2 R), l_acos L2 = acos -> l_pi L = PI -> fmod_spec (l_fmod L) ->
+  forall tiny G t0 prim m a e t p o f E Tin (j : Z),
+  trig_ok t -> 0 < G * (m + pm prim) -> 0 < e < 1 -> 0 < a -> -1 < e * cf t -> tiny <= pm prim ->
+  cf t = cos f -> sf t = sin f -> l_sin L = sin ->
+  cos E = (e + cos f) / (1 + e * cos f) -> sin E = R_sqrt.sqrt (1 - e*e) * sin f / (1 + e * cos f) ->
+  E - e * sin E = R_sqrt.sqrt (G * (m + pm prim) / (a*a*a)) * (t0 - Tin) + IZR j * (2 * PI) ->
+  from_orbit_err RNum tiny G prim m a e t = inr p ->
+  orbit_from_particle_err RNum L L2 tiny G t0 p prim = inr o ->
+  exists k : Z, o_T o = Tin + IZR k * (2 * PI / R_sqrt.sqrt (G * (m + pm prim) / (a*a*a))).
+Proof. exact roundtrip_T. Qed.
+Print Assumptions C11_roundtrip_T.
+
+(* defining relations between the returned angles, in EVERY branch of reb_orbit_from_particle_err (near-planar or
+   generic, any e), modulo 2 pi (cong x y := exists k, x = y + k 2 pi):
+     inc < pi/2 :  pomega = Omega + omega,  theta = pomega + f,  l = pomega + M  (the latter for e > MIN_ECC)
+     otherwise  :  pomega = Omega - omega,  theta = pomega - f,  l = pomega - M.
+   The near-planar branch measures theta and pomega from the x axis and DEFINES omega := pomega -+ Omega, f := +-(theta - pomega);
+   the generic branch measures omega and omega+f from the node and DEFINES pomega, theta: the relations are the same. *)
+Theorem C11_orbit_defining_relations : forall (L : libm R) (L2 : libm2 R), l_pi L = PI -> fmod_spec (l_fmod L) ->
+  forall tiny G t0 p prim o, orbit_from_particle_err RNum L L2 tiny G t0 p prim = inr o ->
+  if Rltb (o_inc o) (PI / 2)
+  then cong (o_pomega o) (o_Omega o + o_omega o) /\ cong (o_theta o) (o_pomega o + o_f o) /\
+       (MIN_ECC RNum < o_e o -> cong (o_l o) (o_pomega o + o_M o))
+  else cong (o_pomega o) (o_Omega o - o_omega o) /\ cong (o_theta o) (o_pomega o - o_f o) /\
+       (MIN_ECC RNum < o_e o -> cong (o_l o) (o_pomega o - o_M o)).
+Proof. exact orbit_relations. Qed.
+Print Assumptions C11_orbit_defining_relations.
+
+(* ---- round 3 (Pal) -------------------------------------------------------------------------------------------- *)
+(* the solver's system f0 = f1 = 0 is Pal's  q = k cos(l+p) + h sin(l+p),  p = k sin(l+p) - h cos(l+p) *)
+Theorem C11_pal_system_forms : forall h k lam p q,
+  q * cos p + p * sin p - (k * cos lam + h * sin lam) = 0 ->
+  - q * sin p + p * cos p - (k * sin lam - h * cos lam) = 0 ->
+  q = k * cos (lam + p) + h * sin (lam + p) /\ p = k * sin (lam + p) - h * cos (lam + p).
+Proof. exact pal_system_forms. Qed.
+Print Assumptions C11_pal_system_forms.
+
+(* algebraic Pal round trip: for a > 0, mu > 0, h^2+k^2 < 1, ix^2+iy^2 < 4, if the (p,q) returned by the solver is a
+   zero of the system, reb_tools_particle_to_pal (reb_particle_from_pal (a,lambda,k,h,ix,iy)) = (a, lambda', k, h, ix, iy)
+   with a, k, h, ix, iy EXACT and lambda' = lambda modulo 2 pi (atan2 by its defining property) *)
+Theorem C11_pal_roundtrip : forall (L : libm R) (L2 : libm2 R),
+  (forall rho th, 0 < rho -> cong (l_atan2 L2 (rho * sin th) (rho * cos th)) th) ->
+  forall G prim m a lam k h ix iy p q,
+  0 < a -> 0 < G * (m + pm prim) -> h*h + k*k < 1 -> ix*ix + iy*iy < 4 ->
+  l_sin L = sin -> l_cos L = cos ->
+  solve_kepler_pal RNum L L2 h k lam = (p, q) ->
+  q * cos p + p * sin p - (k * cos lam + h * sin lam) = 0 ->
+  - q * sin p + p * cos p - (k * sin lam - h * cos lam) = 0 ->
+  exists lam', particle_to_pal RNum L2 G (from_pal RNum L L2 G prim m a lam k h ix iy) prim = [a; lam'; k; h; ix; iy]
+               /\ cong lam' lam.
+Proof. exact pal_roundtrip_solved. Qed.
+Print Assumptions C11_pal_roundtrip.
+
+(* ---- round 3 (hyperbolic orbits) ------------------------------------------------------------------------------- *)
+(* rejection rules specific to e > 1: a > 0 is code 3, a true anomaly beyond the asymptote (e cos f < -1) is code 5, and
+   whatever is accepted with e > 1 has a < 0 and cos f >= -1/e.  (The invariants, a, e, inc, Omega, omega, f round-trip
+   theorems above already cover a < 0, e > 1 through shape_ok.) *)
+Theorem C11_hyperbolic_rejection_and_asymptote : forall tiny G prim m a e t,
+  1 < e ->
+  (0 < a -> from_orbit_err RNum tiny G prim m a e t = inl 3%Z) /\
+  (a < 0 -> e * cf t < -1 -> from_orbit_err RNum tiny G prim m a e t = inl 5%Z) /\
+  (forall p, from_orbit_err RNum tiny G prim m a e t = inr p -> a < 0 /\ - 1 / e <= cf t).
+Proof.
+  intros tiny G prim m a e t He.
+  destruct (reject_rules tiny G prim m a e t) as [_ [_ [_ [R3 [_ [R5 _]]]]]].
+  split; [intro; apply R3; assumption|]. split; [intros; apply R5; [right; split; assumption | assumption]|].
+  intros p Hp. destruct (accepted_is_valid _ _ _ _ _ _ _ _ Hp) as [[[H1 H2]|[H1 H2]] [H3 _]]; [lra|].
+  split; [exact H2|]. apply Rmult_le_reg_l with e; [lra|]. replace (e * (- 1 / e)) with (-1) by (field; lra). exact H3.
+Qed.
+Print Assumptions C11_hyperbolic_rejection_and_asymptote.
+
+(* unbound orbits: n = -sqrt(mu/|a|^3) and T is read back exactly as t0 - (e sinh H - H)/|n|, H the hyperbolic anomaly of f *)
+Theorem C11_roundtrip_T_hyperbolic : forall (L : libm R) (L2 : libm2 R) tiny G t0 prim m a e t p o f H,
+  trig_ok t -> 0 < G * (m + pm prim) -> 1 < e -> a < 0 -> -1 < e * cf t -> tiny <= pm prim ->
+  cf t = cos f -> sf t = sin f ->
+  (forall x, 0 <= x -> l_acosh L2 (cosh x) = x) -> l_sinh L = sinh ->
+  cosh H = (e + cos f) / (1 + e * cos f) -> sinh H = R_sqrt.sqrt (e*e - 1) * sin f / (1 + e * cos f) ->
+  from_orbit_err RNum tiny G prim m a e t = inr p ->
+  orbit_from_particle_err RNum L L2 tiny G t0 p prim = inr o ->
+  let nn := R_sqrt.sqrt (G * (m + pm prim) / ((-a)*(-a)*(-a))) in
+  o_n o = - nn /\ o_T o = t0 - (e * sinh H - H) / nn.
+Proof. exact roundtrip_T_hyperbolic. Qed.
+Print Assumptions C11_roundtrip_T_hyperbolic.
+
+(* ---- round 3 (convergence of the elliptic Newton loop over R) -------------------------------------------------- *)
+(* sin lies below its tangents on [0, pi], hence F(E) = E - e sin E - M is convex there; a Newton step from the right of
+   the root E* stays in [E*, E]; therefore the loop of the model, from any E in [E*, pi] and for any iteration bound,
+   returns a value in [E*, E] ... *)
+Theorem C11_newton_elliptic_monotone : forall e M Es, 0 <= e < 1 -> 0 <= Es <= PI -> Es - e * sin Es - M = 0 ->
+  forall (L : libm R), l_sin L = sin -> l_cos L = cos ->
+  forall fuel E, Es <= E <= PI -> Es <= fst (newton_ell RNum L fuel e M E (E - e * sin E - M)) <= E.
+Proof. intros e M Es He HEs Hr L Hs Hc fuel E HE. exact (newton_ell_monotone e M Es He HEs Hr L Hs Hc fuel E HE). Qed.
+Print Assumptions C11_newton_elliptic_monotone.
+
+(* ... in particular reb_M_to_E with its starter E = pi (e >= 0.8) and a reduced mean anomaly in [0, pi] never overshoots
+   the solution.  (Not proved: the limit itself, the branch M in (pi, 2 pi) (mirror image), the starter E = M for e < 0.8,
+   and anything about binary64.) *)
+Theorem C11_M_to_E_starter_pi_monotone : forall (L : libm R) fuel e M Es,
+  l_sin L = sin -> l_cos L = cos -> l_pi L = PI ->
+  8 / 10 <= e < 1 -> 0 <= Es <= PI ->
+  Es - e * sin Es - M_reduced RNum L M = 0 ->
+  Es <= fst (M_to_E_ell_fuel RNum L fuel e M) <= PI.
+Proof. exact M_to_E_starter_pi_monotone. Qed.
+Print Assumptions C11_M_to_E_starter_pi_monotone.
 
 (* Non-vacuity: a concrete inclined eccentric orbit (cos/sin pairs 3/5,4/5 etc.) meets every hypothesis. *)
 Example C11_hypotheses_inhabited :
